@@ -23,8 +23,8 @@ import (
 	"testing"
 	"time"
 
-	"verifc20/stringx"
-	kit "verifc20/verifkit"
+	"github.com/gotid/god/tools/god/util/stringx"
+	kit "github.com/gotid/god/tools/god/zz_verif/kit"
 )
 
 type c20ConcCase struct {
